@@ -172,7 +172,7 @@ class Engine:
 
     def reference(self, case: Case) -> List[Tuple[str, Any, List]]:
         s = case.schema or sch.fixed(case.backend)
-        comp = refrt.Compiled(parse_query(case.full_query()), s, case.extra_globals)
+        comp = refrt.Compiled(parse_query(case.full_query()), s, case.extra_globals, allow_nonfinite=getattr(case, 'allow_nonfinite', False))
         return [refrt.decide_event(comp, ev) for ev in case.events]
 
     def build_and_run(self, case: Case, keep: bool = False, event_lists: Optional[List[List[int]]] = None) -> Dict[str, Any]:
